@@ -319,6 +319,12 @@ pub(crate) mod fmt {
     }
 }
 
+/// Digests of public revm values, shared with the harness so that the in-order reference is
+/// rendered exactly like the events.
+pub mod digest {
+    pub use super::fmt::{info, result_digest, state_digest};
+}
+
 /// Facade over `parking_lot::Mutex` that tells the controller who owns which lock.
 pub mod sync {
     use std::ops::{Deref, DerefMut};
